@@ -267,11 +267,19 @@ func (g *Group) batchToAffine(t *TraceWriter, pts []*testPoint, r *Rng) {
 	if !ok {
 		return
 	}
-	for _, n := range []int{0, 1, 2, 5, len(pts)} {
+	// pts[0] is the point at infinity: patterns put it first, in the middle, last, twice, everywhere
+	patterns := [][]int{{}, {1}, {0}, {1, 2}, {0, 1, 2}, {1, 0, 2}, {1, 2, 0}, {3, 0, 4, 0, 5}, {0, 0}, {1, 0, 0, 2}, {0, 3, 0}}
+	all := []int{}
+	for i := range pts {
+		all = append(all, (i*3+1)%len(pts))
+	}
+	patterns = append(patterns, all)
+	for _, pat := range patterns {
+		n := len(pat)
 		sl := reflect.MakeSlice(reflect.SliceOf(g.JacT), n, n)
 		var before []any
 		for i := 0; i < n; i++ {
-			p := pts[(i*3+n)%len(pts)].rep("jac", r)
+			p := pts[pat[i]%len(pts)].rep("jac", r)
 			sl.Index(i).Set(p.Elem())
 			before = append(before, tagged("jac", p))
 		}
